@@ -5,7 +5,7 @@ TMP = tempfile.mkdtemp()
 HDR = '''From Coq Require Import String.
 From PS Require Import Base GFDefs PackDefs StoreDefs MiscDefs StrDefs LangDefs ApiDefs SpecDefs SpecApi.
 From PS Require Import GFProofs MiscProofs CoinProofs PackProofs PackTheorems StoreProofs SeedProofs ApiLemmas.
-From PS Require Import StrProofs CTieBase CTieLang CTiePhrase CTiePhraseEv CTieSplit CTieApi CTieDecode CTieEncode CTieLocals CTieInject CTieCmp.
+From PS Require Import StrProofs CTieBase CTieLang CTiePhrase CTiePhraseEv CTieSplit CTieApi CTieDecode CTieEncode CTieLocals CTieInject CTieCmp CTieSearch.
 From PS.Gen Require Import Consts PrivConsts Langs.
 From PS.Gen Require CFuns CApi.
 Local Open Scope N_scope.
@@ -23,7 +23,7 @@ def typ(name):
 IMPORTS = '''
 (* ---- the tie to the code: src/polyseed.c as TRANSLATED on this run (Gen/CApi.v) ---- *)
 From Coq Require Import String.
-From PS Require Import Base GFDefs PackDefs StoreDefs MiscDefs StrDefs LangDefs ApiDefs GFProofs PackProofs StoreProofs CTieBase CTieLang CTiePhrase CTiePhraseEv CTieSplit CTieApi CTieDecode CTieEncode CTieLocals CTieInject CTieCmp.
+From PS Require Import Base GFDefs PackDefs StoreDefs MiscDefs StrDefs LangDefs ApiDefs GFProofs PackProofs StoreProofs CTieBase CTieLang CTiePhrase CTiePhraseEv CTieSplit CTieApi CTieDecode CTieEncode CTieLocals CTieInject CTieCmp CTieSearch.
 From PS.Gen Require Import Consts PrivConsts Langs.
 From PS.Gen Require CFuns.
 From PS.Gen Require CApi.
@@ -62,11 +62,17 @@ PLAN = {
  'C18': [('api_create','tie_create','polyseed_create as translated: one allocation, one clock read, one request for 19 random bytes - all through the table - and the secret is those bytes'),
          ('api_keygen','tie_keygen','polyseed_keygen as translated: the key is what the injected KDF wrote'),
          ('inject','tie_inject','polyseed_inject as translated (release build): the table in place afterwards is a copy of the one handed in, NULL time / alloc / free replaced each by its own libc default, every entry replaced, nothing kept from the previous table')],
- 'C08': [('get_comparer','tie_get_comparer','get_comparer as translated: the comparer selected for a language from its two flags, run as translated, is the mirror comparer of the one token rule')],
+ 'C08': [('get_comparer','tie_get_comparer','get_comparer as translated: the comparer selected for a language from its two flags, run as translated, is the mirror comparer of the one token rule'),
+         ('lang_search','tie_lang_search','lang_search as translated: binary search or linear scan by the is_sorted flag, first match of the scan, index or -1 - the mirror search, for every NUL-free token (libc bsearch by contract)'),
+         ('find_word','tie_lang_find_word','polyseed_lang_find_word as translated: get_comparer, then lang_search')],
+ 'C07': [('find_word','tie_lang_find_word','polyseed_lang_find_word as translated is the mirror search C07_self_index is about')],
 }
 for prop, items in PLAN.items():
     p = '/verif/coq/Properties_%s_tie.v' % prop
-    s = open(p).read()
+    if os.path.exists(p):
+        s = open(p).read()
+    else:
+        s = "(* %s - the tie to the code: theorems about the Gallina that tools/c2coq.py generates from /repo's CURRENT\n   sources on every run (Gen/CFuns.v, Gen/CApi.v). *)\nFrom Coq Require Import NArith List.\nLocal Open Scope N_scope.\n" % prop
     if 'src/polyseed.c as TRANSLATED' in s:
         s = s[:s.index('\n(* ---- the tie to the code: src/polyseed.c as TRANSLATED')]
     s += IMPORTS
